@@ -7,7 +7,7 @@ Correspondence: scalar models with 1..25 parameters, shuffled declaration order 
 get_run_func(backend='fortran', auto=True); the generated .f90 and c.* texts are parsed: parnames, STPNT initialisation, the call forwarding PAR
 slots, the vector-field signature, DFDP columns (auto_jac), unames, NDIM, NPAR; slots are compared with the Lean model; the compiled vector field
 is called through f2py and compared exactly with the oracle."""
-import random, json, os, glob, re, warnings
+import copy, random, json, os, glob, re, warnings
 from fractions import Fraction as F
 import numpy as np
 from .. import common as C
@@ -68,6 +68,14 @@ def gen_case(rng, tier, n_params=None, chain=False, inexact=False):
         case["states2"] = ["u2"]
         for pt in pts:
             pt["p/bop/u2"] = C.q2s(F(rng.randint(-3, 3), rng.choice([1, 2])))
+    if rng.random() < 0.5:
+        # parameter values overridden on the template (update_var) before the export: slots still follow the declaration, STPNT carries the new values
+        cand = [f"p/{o['name']}/{k}" for o in mdl["ops"].values() for k, d in o["vars"].items() if d["decl"] == "const"]
+        case["update_var"] = {pth: str(F(rng.randint(-6, 6), rng.choice([1, 2, 4]))) for pth in rng.sample(cand, rng.randint(1, min(3, len(cand))))}
+        mdl["post_values"] = dict(case["update_var"])      # the exact oracle applies them too
+    if rng.random() < 0.4:
+        # another export in the same process first: the same equations with the parameters declared in reverse order (another slot layout)
+        case["pre_export_reversed"] = True
     if inexact:
         # values that have no short decimal representation: STPNT has to carry them to full double precision
         pool_v = [F(1, 3), F(2, 7), F(1, 2 ** 40), F(3, 10 ** 14), F(10 ** 15 + 1, 2), F(-1, 3), F(123456789, 1000000007), F(1, 2 ** 60)]
@@ -79,13 +87,37 @@ def gen_case(rng, tier, n_params=None, chain=False, inexact=False):
     return case
 
 
+def reversed_decl(mdl):
+    """the same model with the constants of every operator declared in reverse order (other variables keep their places)"""
+    m2 = copy.deepcopy(mdl)
+    for o in m2["ops"].values():
+        keys = list(o["vars"])
+        consts = [k for k in keys if o["vars"][k]["decl"] == "const"]
+        it = iter(reversed(consts))
+        o["vars"] = {k2: o["vars"][k2] for k2 in [(next(it) if o["vars"][k]["decl"] == "const" else k) for k in keys]}
+    return m2
+
+
 def impl_export(case):
     mdl = case["mdl"]
     with M.Scratch() as wd:
         with warnings.catch_warnings():
             warnings.simplefilter("ignore")
+            if case.get("pre_export_reversed"):
+                try:
+                    c0, _, _ = M.build_pyrates(reversed_decl(mdl))
+                    kw0 = dict(step_size=1e-3, file_name="amod0", backend="fortran", float_precision="float64", auto=True, vectorize=False, solver="scipy", verbose=False)
+                    if case["jac"]:
+                        kw0["auto_jac"] = True
+                    c0.get_run_func("vfx", **kw0)
+                    from pyrates import clear_frontend_caches
+                    clear_frontend_caches()
+                except Exception as e:
+                    return {"error": type(e).__name__, "msg": "pre-export: " + str(e)[:300]}
             try:
                 c, _, _ = M.build_pyrates(mdl)
+                if case.get("update_var"):
+                    c.update_var(node_vars={k: float(F(v)) for k, v in case["update_var"].items()})
                 kw = dict(step_size=1e-3, file_name="amod", backend="fortran", float_precision="float64", auto=True, vectorize=False, solver="scipy", verbose=False)
                 if case["jac"]:
                     kw["auto_jac"] = True
@@ -139,6 +171,7 @@ def parse_export(res):
     fn = fn[:fn.index("end subroutine func")]
     P["dfdp_cols"] = sorted({int(j) for j in re.findall(r"dfdp\(\d+,\s*(\d+)\)", fn)})
     P["dfdp_entries"] = re.findall(r"dfdp\((\d+),\s*(\d+)\)\s*=\s*([^\n]+)", fn)
+    P["dfdu_entries"] = re.findall(r"dfdu\((\d+),\s*(\d+)\)\s*=\s*([^\n]+)", fn)
     return P
 
 
@@ -161,6 +194,8 @@ def deviations(case, res, slots, tables):
     op = {"eqs": [e for o in opsd.values() for e in o["eqs"]]}
     # the values PyRates was given are the float64 nearest to the declared rationals
     val = {k: F(float(F(d["value"]))) for o in opsd.values() for k, d in o["vars"].items() if d["decl"] != "input"}
+    for pth, v in (case.get("update_var") or {}).items():
+        val[pth.rsplit("/", 1)[1]] = F(float(F(v)))
     exp_par = {s: nm for s, nm in zip(slots, decl)}
     if P["parnames"] != exp_par:
         bad.append(("parnames-not-declaration-order-on-model-slots", {"got": P["parnames"], "expected": exp_par}))
@@ -205,6 +240,36 @@ def deviations(case, res, slots, tables):
             eq = op["eqs"][[e["lhs"] for e in op["eqs"]].index(P["unames"].get(int(row)))] if P["unames"].get(int(row)) in [e["lhs"] for e in op["eqs"]] else None
             if eq is not None and nm is not None and nm not in M.fvars(eq["rhs"]):
                 bad.append(("dfdp-entry-for-parameter-not-in-equation", {"row": row, "col": col, "param": nm, "expr": expr}))
+        # every DFDU / DFDP entry, evaluated at a generic point through the slots of THIS export, is the derivative of the model's equation
+        # (the right-hand sides are multilinear in states and parameters, so a forward difference is the exact derivative)
+        if not bad and not case.get("inexact"):
+            names = sorted(val)
+            env = {nm: F(2 * k + 3, 2) for k, nm in enumerate(names)}
+            eqs = {e["lhs"]: e["rhs"] for e in op["eqs"]}
+
+            def f(lhs, e_):
+                return M.ev(eqs[lhs], e_.__getitem__, {})
+
+            def fort(expr):
+                t = re.sub(r"args\((\d+)\)", lambda m: f"A[{m.group(1)}]", expr.strip())
+                t = re.sub(r"\by\((\d+)\)", lambda m: f"Y[{m.group(1)}]", t)
+                t = re.sub(r"(?<![\w\[])(\d+\.?\d*(?:[dDeE][+-]?\d+)?)(?![\w\]])", lambda m: "F('" + m.group(1).lower().replace("d", "e") + "')", t)
+                return eval(t, {"F": F, "A": {s_: env[nm] for s_, nm in P["parnames"].items()}, "Y": {i: env[nm] for i, nm in P["unames"].items()}})
+            for kind, entries, cols in (("dfdu", P["dfdu_entries"], P["unames"]), ("dfdp", P["dfdp_entries"], P["parnames"])):
+                got = {}
+                try:
+                    for r_, c_, ex in entries:
+                        got[(int(r_), int(c_))] = fort(ex)
+                except Exception as e:
+                    bad.append((kind + "-entry-unreadable", {"error": f"{type(e).__name__}: {e}", "entries": entries[:4]}))
+                    continue
+                for i, lhs in P["unames"].items():
+                    for cidx, nm in cols.items():
+                        e2 = dict(env); e2[nm] = env[nm] + 1
+                        want = f(lhs, e2) - f(lhs, env)
+                        if got.get((i, cidx), F(0)) != want:
+                            bad.append((kind + "-entry-is-not-the-derivative", {"row": i, "col": cidx, "equation_of": lhs, "with_respect_to": nm, "got": str(got.get((i, cidx), 0)), "expected": str(want)}))
+                            break
     return bad
 
 
